@@ -691,7 +691,10 @@ def _arith(a, b, op):
     if b._kind == "b":
         b = cast_scalar(b, int64)
     if not a.sym and not b.sym:
-        return _mk(cls, _conc_arith(a.v, b.v, op, cls), None) if True else None
+        r0 = _conc_arith(a.v, b.v, op, cls)
+        if cls._name in _INT_BITS and isinstance(r0, int):
+            r0 = _wrap_int(r0, cls)
+        return _mk(cls, r0, None)
     # at least one symbolic
     spa, spb = (_conc_special(a) if not a.sym else None), (_conc_special(b) if not b.sym else None)
     nan = _or(a.nan, b.nan)
@@ -722,6 +725,8 @@ def _arith(a, b, op):
         else:
             q = z3.ToReal(z3.ToInt(ta / tb))
             r = q if op == "floordiv" else ta - tb * q
+    if cls._name in _INT_BITS:
+        r = _wrap_int(r, cls)   # int16 / int32 arithmetic wraps around
     return _mk(cls, r, nan)
 
 
